@@ -121,7 +121,13 @@ pub fn main(ctx: &Ctx, repo_bin_dir: Option<String>) -> i32 {
         let mut i = w;
         while i < ndefs {
             cfg.max_depth = 1 + i % 3;
+            // one definition in 25 is big (tens to hundreds of members of interleaved kinds):
+            // what keeps the order of declaration must do so at every size
+            cfg.max_members = if i % 25 == 7 { *rng.pick(&[33usize, 40, 48, 64, 100, 130, 300]) } else { 7 };
             let idl = gen_idl(&mut rng, &cfg);
+            if idl.members.len() >= 33 {
+                ctx.count("definitions_with_33_or_more_members", 1);
+            }
             let text = render(&idl, &mut rng, i % 3);
             let has_docs = !idl.comments.is_empty() || idl.members.iter().any(|m| !m.comments.is_empty());
             let mut prev: Option<String> = None;
